@@ -39,7 +39,7 @@ def describe(c):
 def flow_of(c):
     if c["fam"] != "flow":
         return c["fam"]
-    return "flow%d" % (c["id"] // 41 // 2400 // 8)
+    return "flow%d" % (c["id"] // 67 // 2400 // 8)
 
 
 def signature(c, inv, inst):
@@ -77,7 +77,7 @@ def run(tier, v):
     thorough = tier == "thorough"
     states = trans = 0
     # 1. design level + case export
-    mod = 3 if thorough else 7
+    mod = 3 if thorough else 9
     r = vlib.tlc("ScenarioMC", "Scenario_thorough.cfg" if thorough else "Scenario_exh.cfg",
                  env={"VERIF_SEED": vlib.seed(), "VERIF_MOD": mod}, workers=8, heap="6g", deadlock=False, timeout=2400)
     vlib.tlc_must_pass(r, "Scenario_exh")
@@ -126,6 +126,12 @@ def run(tier, v):
         f.write(open(o2).read())
         f.write(open(o3).read())
     rows, tr = validate(v, obs)
+    for r_ in rows:     # machinery sanity: the request that got no answer came on a fresh connection (net/http never re-sends there)
+        sc = r_["case"]["script"]
+        if sc["kind"] == "eof" and r_["inst"] == 1:
+            hit = [e for e in r_["obs"]["log"] if e["k"] == sc["at"]]
+            if hit and not hit[0]["fresh"]:
+                raise vlib.MachineryError("case %d: the eof script hit a reused connection" % r_["case"]["id"])
     vlib.log("TraceScenario: %d lines in %.1fs" % (len(rows), tr.wall))
     nontrivial = len({json.dumps([c["case"]["scens"], c["case"]["script"], c["case"]["reqs"]], sort_keys=True) for c in rows})
     fams = {}
@@ -154,7 +160,7 @@ def run(tier, v):
     }
     return "model_checking", cov, [
         "design level exhaustive within: <= 3 listed requests, multiplicities 1..3, sleeps 0/3/4 ms, 9 flow profiles, "
-        "scripts ok / transport@k / status 418@k / truncated body@k for every k of the first shot + 1, 2 shots; weights in {1,2,3,4,6} for 1..3 scenarios",
+        "scripts ok / transport@k / status 418@k / truncated body@k / clean close without a response byte@k for every k of the first shot + 1, 2 shots; weights in {1,2,3,4,6} for 1..3 scenarios",
         "the replayed subset of the flow cases is chosen by id modulo (seeded); ring, iter and next cases are all replayed",
         "pauses are checked one-sidedly (>= requested); min_waiting_time, [rand] and the html templater are not modelled",
         "trusted: renderer and recorder (harness/cmd/vdrive/scenario.go, harness/internal/scentarget)"]
